@@ -390,9 +390,9 @@ class File(resource.Resource, filepath.FilePath[str]):
                 if end is not None and start > end:
                     # Start must be less than or equal to end or it is invalid.
                     raise ValueError(f"Invalid Byte-Range: {byteRange!r}")
-            elif end is None:
+            elif end is None or end < 0:
                 # One or both of start and end must be specified.  Omitting
-                # both is invalid.
+                # both is invalid, and so is a negative suffix length.
                 raise ValueError(f"Invalid Byte-Range: {byteRange!r}")
             parsedRanges.append((start, end))
         return parsedRanges
